@@ -185,6 +185,9 @@ def r3_per_thread_state(rule, root=None):
         rule.bad("raster|thread|itape", "render_tiles must populate the interval tape before cloning the handle", A.where(fn))
 
 
+from .. import factrules as FR
+
+
 def run(ctx):
     r = ctx.rule("R1", "an abort originates only from the cancel token (or a child's abort) and turns the whole result into None", 16)
     ctx.guarded(r, r1_cancellation)
@@ -198,3 +201,5 @@ def run(ctx):
     ctx.guarded(r, R.r_effect_siblings)
     r = ctx.rule("R4", "multithreaded merge offsets (= C08.R2)", 12)
     ctx.guarded(r, r2_merge_offsets)
+    r = ctx.rule("R2f", "[resolved program] Send/Sync unsafe impls equal the vetted seven; JIT handles and VarMap are never written after construction", 8)
+    ctx.guarded(r, FR.send_sync_inventory, ctx)
